@@ -335,6 +335,14 @@ def gen_vector(repo):
     return m
 
 
+def gen_ext_props(repo):
+    """T14: ExtendedPropertyDictionary as a whole class"""
+    m = T.Module(f"{repo}/src/nitypes/waveform/_extended_properties.py", "Gen.ExtProps")
+    m.extra_imports = ["NiVerif.Py.Dict"]
+    m.translate_dict_class("ExtendedPropertyDictionary")
+    return m
+
+
 MODULES = [
     # (output file, builder, dependencies by output name)
     ("TimeValueTuple", lambda repo, deps: gen_time_value_tuple(repo), []),
@@ -355,6 +363,7 @@ MODULES = [
     ("Scalar", lambda repo, deps: gen_scalar(repo), []),
     ("Args", lambda repo, deps: gen_args(repo), []),
     ("Vector", lambda repo, deps: gen_vector(repo), []),
+    ("ExtProps", lambda repo, deps: gen_ext_props(repo), []),
 ]
 
 
@@ -399,12 +408,12 @@ def main(repo: str, outdir: str) -> dict:
             entry = {"ok": True, "source": os.path.relpath(m.path, repo), "defs": len(m.funcs),
                      "consts": len(m.consts)}
         except (T.Untranslatable, SyntaxError, OSError) as e:
-            text = (f"-- GENERATED: translation FAILED\n-- {e}\n"
+            text = (f"-- GENERATED: translation FAILED\n-- " + str(e).replace("\n", "\n-- ") + "\n"
                     f"#eval (translation_failed_{name} : Nat)  -- deliberately ill-formed\n")
             entry = {"ok": False, "error": str(e)}
             report["errors"].append({"module": name, "error": str(e)})
         except Exception as e:  # translator bug: also a broken tie, but say so
-            text = (f"-- GENERATED: translator crashed\n-- {type(e).__name__}: {e}\n"
+            text = (f"-- GENERATED: translator crashed\n-- {type(e).__name__}: " + str(e).replace("\n", "\n-- ") + "\n"
                     f"#eval (translation_failed_{name} : Nat)\n")
             entry = {"ok": False, "error": f"translator crash: {type(e).__name__}: {e}",
                      "trace": traceback.format_exc()}
